@@ -993,7 +993,8 @@ func main() {
 		"traces_validated_against_impl": e.toolRuns,
 		"evaluations":                   inproc + int64(wholeN) + e.toolRuns,
 		"distinct_nontrivial":           nontrivial,
-		"programs":                      pa.Before,
+		"programs":                      units,
+		"program_counts":                pa.Before,
 		"programs_after_exclusion":      pa.After,
 		"samples":                       samples,
 		"exhaustive":                    exhaustive,
